@@ -257,7 +257,13 @@ LSTerms ==
      Quant("forall", <<BVar("x", TInt)>>, Op("and", <<Op("le", <<Xx, Yy>>), Quant("exists", <<BVar("y", TInt)>>, Op("lt", <<Yy, Xx>>))>>)),
      Op("and", <<P, Quant("exists", <<BVar("p", TBool)>>, Op("or", <<P, Qs>>))>>),
      Op("str_prefixof", <<Sym("s", TString), Op("ite", <<P, StrC(<<97>>), Sym("s", TString)>>)>>),
-     Op("bv_ult", <<Bb, Op("ite", <<Op("bv_ult", <<Cc, Bb>>), Cc, BVC(1, 2)>>)>>)}
+     Op("bv_ult", <<Bb, Op("ite", <<Op("bv_ult", <<Cc, Bb>>), Cc, BVC(1, 2)>>)>>),
+     \* string constants whose TEXT looks like an escape sequence of the Strings theory, non-ASCII and control characters:
+     \* the six characters \u{41}; a\u0041; e-acute; TAB; GREEK ALPHA + backslash
+     Op("equals", <<Op("str_length", <<StrC(<<92, 117, 123, 52, 49, 125>>)>>), IntC(6)>>),
+     Op("equals", <<Sym("s", TString), StrC(<<97, 92, 117, 48, 48, 52, 49>>)>>),
+     Op("str_prefixof", <<StrC(<<233>>), Op("str_concat", <<StrC(<<233, 9>>), Sym("s", TString)>>)>>),
+     Op("equals", <<Op("str_length", <<StrC(<<945, 92>>)>>), IntC(2)>>)}
 
 \* ---------------------------------------------------------------------------
 \* operator mixes per feature family for logic detection (C13)
